@@ -59,7 +59,7 @@ func r4Decode(s *r4spec, r io.Reader) (rhp4.Object, int64, error) {
 
 func (s *r4spec) recvLimit() int64 {
 	if s.resp {
-		return int64(szErr + s.limit)
+		return int64(1 + szErr + s.limit) // flag byte + error allowance + object limit
 	}
 	return int64(16 + s.limit) // 16 = RPC id read by ReadID
 }
